@@ -22,7 +22,12 @@ var providerPkgs = []string{"pkg/database", "pkg/redis", "pkg/mongodb", "pkg/llm
 func runC12(c *Ctx) {
 	c.rule("C12-R7", "BND: in the provider packages the interpreter can reach (pkg/redis, pkg/mongodb, pkg/database) every index, slice expression and make whose bound derives from an integer parameter of an exported method (GlyphLang integers arrive there through CallMethod) is proven in range by dominating comparisons on the very values used (0 <= low <= high <= len, make length >= 0): an allow-listed method with well-typed arguments must not crash the runtime (`lrange(k, 5, 10)` on a 3-item list)")
 	bndParamSources = true
-	boundsRule(c, "C12-R7", []string{"pkg/redis", "pkg/mongodb", "pkg/database"}, 2)
+	// floor 0: on this tree two sites exist (MockHandler.LRange); a refactoring that moves the index arithmetic into a
+	// helper whose results are used leaves none, which is "nothing to prove", not "cannot decide"
+	boundsRule(c, "C12-R7", []string{"pkg/redis", "pkg/mongodb", "pkg/database"}, 0)
+	if c.Sites["C12-R7#runtime-int-bounds-sites"] == 0 {
+		c.info("C12-R7", "provider-packages#no-direct-runtime-integer-bounds", token.NoPos, "no integer parameter of an exported provider method reaches an index, slice bound or make size directly")
+	}
 	bndParamSources = false
 	// ---- R1 single reflective gate
 	c.rule("C12-R1", "WCS: reflect.Value.MethodByName / Method / Call / CallSlice are used in pkg/interpreter only inside CallMethod and HasMethod, and HasMethod never calls; no other package of the provider path performs reflective calls on GlyphLang-supplied names")
